@@ -34,6 +34,16 @@ def main():
             spec = json.load(f)
         col = core.Collector(known_open=spec.get("known_open", ()))
         mod = importlib.import_module("checks." + modname)
+
+        def hard_stall(v):
+            col.record_failure(v.key, v.detail, v.case)
+            res = col.result()
+            res["ok"] = True
+            res["wall_s"] = time.time() - t0
+            with open(outfile, "w") as f:
+                json.dump(res, f, default=repr)
+            os._exit(0)
+        core.HARD_STALL_HOOK[0] = hard_stall
         try:
             getattr(mod, func)(col, **spec.get("args", {}))
         except core.Violation as v:
